@@ -29,12 +29,12 @@ RULE = ("(a) generated texts with non-ASCII header text from four repertoires (L
         "histories of length 5..40 over {read(text_i, options_j), write, header mutation, in-place curve edit, deepcopy, to_json, "
         "df, LASFile()} on a pool of 3-6 texts (incl. files lacking ~W/~P/~O, duplicates, wrapped, non-ASCII). distinct = "
         "distinct (repertoire, stored form, eol, channel) for (a) and distinct operation-kind trigrams + history digests for (b); "
-        "non-trivial = (a) a non-reference channel read, (b) a history with >= 2 reads of one key separated by >= 1 mutation Added later: indented titles, the constructor channel, first non-ASCII character 1..3 bytes before 1024..16384-byte boundaries, data section not last, a data row with a trailing remark. Hunter round 2: codecs.open() / codecs.getreader() file objects as channels.")
+        "non-trivial = (a) a non-reference channel read, (b) a history with >= 2 reads of one key separated by >= 1 mutation Added later: indented titles, the constructor channel, first non-ASCII character 1..3 bytes before 1024..16384-byte boundaries, data section not last, a data row with a trailing remark. Hunter round 2: codecs.open() / codecs.getreader() file objects as channels. Round 8: the file addressed through a symlinked directory and '..', as str and as Path.")
 ASSUMPTIONS = [
     "chardet-based detection is environment dependent and is not part of any oracle: every file is UTF-8 with BOM, read with an explicit encoding=, or valid UTF-8 read without one (which lasio decides without the detector since fix 0f795ac)",
     "CR-only line ends are used for files only (text-mode universal newlines); strings are given LF or CRLF",
 ]
-REQUIRED = ["channel_reads_compared", "channel_str_path", "channel_Path", "channel_file_object", "channel_StringIO", "channel_string", "channel_codecs_open_file_object", "channel_str_path_no_encoding_given",
+REQUIRED = ["channel_reads_compared", "channel_str_path", "channel_Path", "channel_file_object", "channel_StringIO", "channel_string", "channel_codecs_open_file_object", "channel_str_path_no_encoding_given", "channel_Path_through_symlink_and_dotdot",
             "channel_cases_multibyte_char_at_window_boundary", "channel_cases_variant_remark_after", "codec_utf-8-sig", "codec_utf-8", "codec_utf-16", "codec_utf-16-le", "codec_utf-16-be", "codec_latin-1", "codec_cp1252",
             "eol_CR", "eol_CRLF", "channel_cases_indented_titles", "history_reads_compared", "rereads_after_mutation", "quiescent_state_checks", "unmutated_object_checks"]
 SOFT_DEADLINE = {"quick": 100, "thorough": 1500}
@@ -162,7 +162,26 @@ def run_channels(case, ctx):
     enc_kw = {} if codec == "utf-8-sig" else {"encoding": codec}
     ctx.count("codec_" + codec)
     ctx.count("eol_" + eolname)
+    # the same file addressed through a symlinked directory and '..' (for the OS: <scratch>/c10-archive/<file>; collapsed textually it
+    # would be <scratch>/c10-links/<file>, where another well's file lies)
+    arch = os.path.join(ctx.scratch, "c10-archive")
+    os.makedirs(os.path.join(arch, "run1"), exist_ok=True)
+    os.makedirs(os.path.join(ctx.scratch, "c10-links"), exist_ok=True)
+    link = os.path.join(ctx.scratch, "c10-links", "current")
+    if not os.path.islink(link):
+        try:
+            os.symlink(os.path.join(arch, "run1"), link)
+        except OSError:
+            pass
+    twin = os.path.join(arch, os.path.basename(path))
+    with open(twin, "wb") as f:
+        f.write(data.encode(codec))
+    with open(os.path.join(ctx.scratch, "c10-links", os.path.basename(path)), "wb") as f:
+        f.write(data.replace("100.0", "555.0").encode(codec))          # a decoy: another well
+    dotdot = os.path.join(link, "..", os.path.basename(path))
     channels = [("str_path", lambda: lasio.read(path, **enc_kw)),
+                ("str_path_through_symlink_and_dotdot", (lambda: lasio.read(dotdot, **enc_kw)) if os.path.islink(link) else None),
+                ("Path_through_symlink_and_dotdot", (lambda: lasio.read(pathlib.Path(dotdot), **enc_kw)) if os.path.islink(link) else None),
                 ("str_path_bom_with_explicit_utf8", (lambda: lasio.read(path, encoding="utf-8")) if codec == "utf-8-sig" else None),
                 ("Path", lambda: lasio.read(pathlib.Path(path), **enc_kw)),
                 # a UTF-8 file without BOM and without encoding=: decided by lasio itself (valid UTF-8 is opened as UTF-8), not by the detector
